@@ -104,7 +104,7 @@ def _run(ctx, pid, thorough, rng, exe, tmp):
         e = ev[k] if k < len(ev) else {}
         what = "execution %s is not a behaviour of the specification: event %d %s refused%s" % (
             s.sid, k, json.dumps({x: e[x] for x in e if x not in ("st", "cfg", "w")})[:500], (" / invariant %s violated" % r.violation) if r.violation else "")
-        ctx.violation(what, {"kind": "trace", "module": "Trace_Track.tla", "cfg": "Trace_Track.cfg", "script": s.s.text(), "config": s.cfg, "tree": s.tree,
+        ctx.violation(what, {"kind": "trace", "module": "Trace_Track.tla", "cfg": "Trace_Track.cfg", "script": s.s.text(), "config": s.cfg, "tree": s.tree, "regen": s.meta(),
                              "events": ev, "refused_at": k})
     for s, ev in items[:3]:
         ctx.sample({"session": s.sid, "tree": s.tree, "boards": [b["id"] for b in s.cfg["boards"]], "connected": {b: v["addr"] for e in ev if e["e"] == "boot" for b, v in e["conn"].items() if v["conn"]}})
